@@ -5,3 +5,6 @@ export CARGO_NET_OFFLINE=true
 cd /verif/engine
 cp /repo/Cargo.lock Cargo.lock 2>/dev/null || true
 cargo build --release --offline
+cd /verif/loomjob
+cp /repo/Cargo.lock Cargo.lock 2>/dev/null || true
+cargo build --release --offline
